@@ -127,13 +127,18 @@ func GenErrChain(t *rapid.T, label string) []ErrLink {
 	n := rapid.IntRange(0, 3).Draw(t, label+".depth")
 	var out []ErrLink
 	for i := 0; i < n; i++ {
-		out = append(out, ErrLink{
-			Code:      uint(rapid.Uint32().Draw(t, label+".code")),
-			Message:   GenText(t, label+".msg"),
-			Permanent: rapid.Bool().Draw(t, label+".perm"),
-		})
+		out = append(out, genErrLink(t, label))
 	}
 	return out
+}
+
+// genErrLink draws one link of an error chain.
+func genErrLink(t *rapid.T, label string) ErrLink {
+	return ErrLink{
+		Code:      uint(rapid.Uint32().Draw(t, label+".code")),
+		Message:   GenText(t, label+".msg"),
+		Permanent: rapid.Bool().Draw(t, label+".perm"),
+	}
 }
 
 // GenAttempts draws 0..3 attempts for an action of the plugin kind: typed responses, nil responses, error chains.
@@ -141,14 +146,19 @@ func GenAttempts(t *rapid.T, label string, plugin int) []AttemptSpec {
 	n := rapid.IntRange(0, 3).Draw(t, label+".n")
 	var out []AttemptSpec
 	for i := 0; i < n; i++ {
-		at := AttemptSpec{Start: GenTime(t, label+".start"), End: GenTime(t, label+".end"), Err: GenErrChain(t, label+".err")}
-		if !IsNilKind(plugin) && rapid.IntRange(0, 2).Draw(t, label+".hasresp") > 0 {
-			at.HasResp = true
-			at.Resp = GenVal(t, label+".resp")
-		}
-		out = append(out, at)
+		out = append(out, genAttempt(t, label, plugin))
 	}
 	return out
+}
+
+// genAttempt draws one attempt.
+func genAttempt(t *rapid.T, label string, plugin int) AttemptSpec {
+	at := AttemptSpec{Start: GenTime(t, label+".start"), End: GenTime(t, label+".end"), Err: GenErrChain(t, label+".err")}
+	if !IsNilKind(plugin) && rapid.IntRange(0, 2).Draw(t, label+".hasresp") > 0 {
+		at.HasResp = true
+		at.Resp = GenVal(t, label+".resp")
+	}
+	return at
 }
 
 // GenCfg bounds the generated plans.
@@ -167,6 +177,10 @@ type GenCfg struct {
 	Poison bool
 	// Plain keeps names short and requests small (for checks that are not about field fidelity).
 	Plain bool
+	// BadUTF8Percent > 0 makes cfg.Update turn that percentage of the updates of actions into the rare class "attempt
+	// strings with invalid UTF-8" (AttemptSpec.BadUTF8). Zero everywhere but in C13: a vault may refuse such a write, so a
+	// check that uses it needs an oracle for both outcomes. Plan (Create) never draws the class.
+	BadUTF8Percent int
 }
 
 // DefaultCfg is the 3×3×3 bound of DESIGN §4.6.
@@ -321,6 +335,43 @@ func GenUpdate(t *rapid.T, label string, ps *PlanSpec, tg Target) Update {
 	}
 	if a := ResolveActionSpec(ps, tg); a != nil {
 		u.Attempts = GenAttempts(t, label+".attempts", a.Plugin)
+	}
+	return u
+}
+
+// Update draws what GenUpdate draws and then, for BadUTF8Percent percent of the updates of actions, turns the update into
+// one of the rare class "attempt strings with invalid UTF-8": one attempt (drawn, one is added when the update has none)
+// gets one string with invalid bytes (kind drawn from BadUTF8High..BadUTF8Latin1) at a drawn place: the message of the
+// error at depth 0, 1 or 2 of the Wrapped chain (links are drawn and added until the chain is that deep) or, for plugins
+// with a typed response, a string field of the response (a response is drawn when the attempt has none). With
+// BadUTF8Percent == 0 it is exactly GenUpdate (no extra draw).
+func (cfg GenCfg) Update(t *rapid.T, label string, ps *PlanSpec, tg Target) Update {
+	u := GenUpdate(t, label, ps, tg)
+	a := ResolveActionSpec(ps, tg)
+	if a == nil || cfg.BadUTF8Percent <= 0 {
+		return u
+	}
+	if Uniform(t, 100, label+".badutf8") >= cfg.BadUTF8Percent {
+		return u
+	}
+	if len(u.Attempts) == 0 {
+		u.Attempts = append(u.Attempts, genAttempt(t, label+".badutf8.attempt", a.Plugin))
+	}
+	at := &u.Attempts[rapid.IntRange(0, len(u.Attempts)-1).Draw(t, label+".badutf8.idx")]
+	at.BadUTF8 = rapid.IntRange(BadUTF8High, BadUTF8Last).Draw(t, label+".badutf8.kind")
+	maxPlace := BadAtLast
+	if IsNilKind(a.Plugin) {
+		maxPlace = BadAtErr2 // no typed response: only the error chain has strings
+	}
+	at.BadAt = rapid.IntRange(0, maxPlace).Draw(t, label+".badutf8.at")
+	if at.BadAt <= BadAtErr2 {
+		at.Err = append([]ErrLink(nil), at.Err...)
+		for len(at.Err) <= at.BadAt {
+			at.Err = append(at.Err, genErrLink(t, label+".badutf8.err"))
+		}
+	} else if !at.HasResp {
+		at.HasResp = true
+		at.Resp = GenVal(t, label+".badutf8.resp")
 	}
 	return u
 }
